@@ -385,6 +385,23 @@ func TestC13(t *testing.T) {
 			case 1:
 				j := rapid.IntRange(0, len(o)-1).Draw(rt, "j")
 				o[j]++
+			case 2:
+				// the same dimensions in another order (same rank, same number of elements per slab)
+				if len(o) >= 2 {
+					i, j := rapid.IntRange(0, len(o)-1).Draw(rt, "pi"), rapid.IntRange(0, len(o)-1).Draw(rt, "pj")
+					o[i], o[j] = o[j], o[i]
+				}
+			case 3:
+				// one dimension doubled, another halved
+				for i := range o {
+					if o[i]%2 == 0 && i != c.Axis {
+						j := (i + 1) % len(o)
+						if j != c.Axis && j != i {
+							o[i], o[j] = o[i]/2, o[j]*2
+						}
+						break
+					}
+				}
 			}
 			c.Others = append(c.Others, o)
 		}
